@@ -306,6 +306,62 @@ def replace_laws(part, t, w, seed):
     return n
 
 
+def chained_replace_laws(part, w=32):
+    """replacement maps in which a key is matched only by a node REBUILT after an inner replacement (a0 -> x0 makes
+    (a0+c) into (x0+c), which is a key itself).  Every chained key maps to a commuted, equal-valued term, so the value of
+    the result is determined by the inner (leaf) replacements alone whatever the order of application; several such keys
+    and several further rebuilt operands in one call (rebuilt nodes die and their storage is reused during the visit)."""
+    ID = lambda n: ('id', n, w)
+    c = ID('c')
+    n = 0
+    vals = []
+    for k in range(4):
+        ids = {}
+        for j, nm in enumerate(['c'] + ['%s%d' % (p, i) for p in 'axbz' for i in range(4)]):
+            ids[nm] = (0x9e3779b1 * (j + 1) * (k + 3) + k) & irsem.mask(w)
+        vals.append(ids)
+    for outer in ('*', '+', '^'):
+        for nch in range(1, 5):
+            for npl in range(0, 4):
+                for with_orig in (False, True):
+                    ops, d, exp = [], {}, []
+                    for i in range(nch):
+                        ops.append(('op', '+', (ID('a%d' % i), c)))
+                        d[ID('a%d' % i)] = ID('x%d' % i)
+                        d[('op', '+', (ID('x%d' % i), c))] = ('op', '+', (c, ID('x%d' % i)))
+                        exp.append(('op', '+', (c, ID('x%d' % i))))
+                    if with_orig:
+                        for i in range(nch):
+                            ops.append(('op', '+', (ID('x%d' % i), c)))
+                            exp.append(('op', '+', (c, ID('x%d' % i))))
+                    for i in range(npl):
+                        ops.append(('op', '+', (ID('b%d' % i), c)))
+                        d[ID('b%d' % i)] = ID('z%d' % i)
+                        exp.append(('op', '+', (ID('z%d' % i), c)))
+                    if len(ops) < 2:
+                        continue
+                    t = ('op', outer, tuple(ops))
+                    expect = ('op', outer, tuple(exp))
+                    for rep in range(2):
+                        e = irsem.from_neutral(t)
+                        dd = {irsem.from_neutral(k2): irsem.from_neutral(v) for k2, v in d.items()}
+                        n += 1
+                        try:
+                            tr = irsem.to_neutral(e.replace_expr(dd))
+                            bad = None
+                            for ids in vals:
+                                got, want = irsem.ev_int(tr, irsem.Env(ids, {}, 0)), irsem.ev_int(expect, irsem.Env(ids, {}, 0))
+                                if got != want:
+                                    bad = 'replace_expr(%s, %s) = %s: value %#x, substitution gives %#x' % (
+                                        irsem.show(t), {irsem.show(a): irsem.show(b) for a, b in d.items()}, irsem.show(tr), got, want)
+                                    break
+                        except Exception as ex:
+                            bad = 'replace_expr on %s raises / returns an unevaluable term: %r' % (irsem.show(t), ex)
+                        if bad:
+                            part.violation('law=replace kind=op keys=chained', bad, {'chained': [outer, nch, npl, with_orig], 'w': w}, nch + npl)
+    return n
+
+
 def raw_constant_laws(part):
     """constants of EVERY fixed-width integer class (signed and unsigned, 1..128 bits; the neutral form only covers the
     unsigned 1/8/16/32/64-bit ones), alone and inside each node kind: copy / visit(identity) / replace_expr(empty map)
@@ -383,6 +439,10 @@ def shard_unary(s, ns, tier, seed):
     part = core.Part()
     if s == 0:
         raw_constant_laws(part)
+    if s == 1 % ns:
+        nchain = chained_replace_laws(part)
+        part.counters['replace_maps'] += nchain
+        part.n += nchain
     for w in widths(tier):
         U = unary_pool(w, tier)
         PP = set(pair_pool(w))
@@ -528,6 +588,11 @@ def replay(wt):
                     if hash(os_[i]) != hash(os_[j]) or vi != vj or not (os_[j] == os_[i]):
                         bad = True
         return bad, '\n'.join(msg)
+    if 'chained' in wt:
+        chained_replace_laws(part, w)
+        if part.viols:
+            return True, '\n'.join('%s: %s' % (k, v[1]) for k, v in part.viols.items())
+        return False, 'ok'
     t = tup(wt['tree'])
     unary_laws(part, t, w, 0)
     replace_laws(part, t, w, 0)
